@@ -130,7 +130,7 @@ pub fn check_exact(o: &Outcome, conv: &Conv, last_seq: &[u8], expected: &[Cb]) -
         Some(p) => p,
         None => conv.cmds.len(),
     };
-    decode_all(&o.sim.out, conv, last_seq, n_answered, false).map_err(|e| Violation::new("reply-decode", e))
+    decode_all(delivered(&o), conv, last_seq, n_answered, false).map_err(|e| Violation::new("reply-decode", e))
 }
 
 /// All subsets of `cands` with at most `k` elements, smallest first.
